@@ -9,6 +9,7 @@ import (
 
 	"lcverif/common"
 	"lcverif/lcw"
+	"lcverif/rk"
 	"lcverif/rng"
 )
 
@@ -19,6 +20,9 @@ func register(name string, g gen, nontrivial func(in lcw.Input, obs []lcw.StepOb
 		c, obs, err := lcw.RunCase(in)
 		if err != nil {
 			return nil, err
+		}
+		if name == "c15" {
+			c.Coq = "(C15.CIn " + c.Coq + ")"
 		}
 		c.Classes = lcw.Classes(in, obs)
 		raw, _ := json.Marshal(in)
@@ -32,6 +36,16 @@ func register(name string, g gen, nontrivial func(in lcw.Input, obs []lcw.StepOb
 			count := 0
 			for count < n && !lcw.Diverged {
 				sub := r.U64()
+				if name == "c15" && count%5 == 4 && rk.Available() {
+					pc, err := runProc(genProcInput(rng.New(sub)))
+					if err != nil {
+						panic(err)
+					}
+					pc.Sub = sub
+					emit(pc)
+					count++
+					continue
+				}
 				for _, in := range g(rng.New(sub), tier) {
 					c, err := run(in)
 					if err != nil {
@@ -47,6 +61,12 @@ func register(name string, g gen, nontrivial func(in lcw.Input, obs []lcw.StepOb
 			}
 		},
 		Replay: func(raw json.RawMessage) (*common.Case, error) {
+			var probe struct {
+				Proc *ProcInput `json:"proc"`
+			}
+			if json.Unmarshal(raw, &probe) == nil && probe.Proc != nil {
+				return runProc(*probe.Proc)
+			}
 			var in lcw.Input
 			if err := json.Unmarshal(raw, &in); err != nil {
 				return nil, err
